@@ -95,3 +95,37 @@ func H04Grammar() {
 	vndAssert((ClassOf(unit) == Binary) == binary, "classof-binary-iff-bytes-in-numerator")
 	vndObserveStr("u", u)
 }
+
+var h04Chars = []string{"n", "s", "M", "B", "/", "*", " ", "\u00e0", "\u0085"} // U+00E0 ends in byte 0xA0; U+0085 (NEL) is a space
+
+// H04GrammarWide: units whose characters include a letter and a space that
+// are multi-byte in UTF-8.
+func H04GrammarWide() {
+	n := vndParam("len")
+	var unit string
+	var ref []byte // the same unit with the two-byte letter as 'x' and NEL as ' '
+	for i := 0; i < n; i++ {
+		k := vndChoice("ch", len(h04Chars))
+		unit += h04Chars[k]
+		switch k {
+		case 7:
+			ref = append(ref, 'x')
+		case 8:
+			ref = append(ref, ' ')
+		default:
+			ref = append(ref, h04Chars[k]...)
+		}
+	}
+	_, nNs, nMB, binary := h04Ref(ref)
+	v, u := Tidy(1, unit)
+	vndReach("h04g:wide")
+	f := 1.0
+	for i := 0; i < nNs; i++ {
+		f /= 1e9
+	}
+	_ = v
+	_ = f
+	_ = u
+	vndAssert((nNs+nMB > 0) == (u != unit), "tidy-rewrites-exactly-when-a-numerator-ns-or-mb-component-exists")
+	vndAssert((ClassOf(unit) == Binary) == binary, "classof-binary-iff-bytes-in-numerator")
+}
